@@ -24,6 +24,8 @@
 (*   nb     n0 n1      the 4 bytes behind the lock word (the lock is the    *)
 (*                     first field of a cell: zero / a datum / another held *)
 (*                     lock) before and after the case                      *)
+(*   fault  t          a lock operation of task t caused a memory fault     *)
+(*                     (the lock sat in front of an inaccessible page)      *)
 (*   reset             end of one case                                      *)
 (* Between two events the monitor may take the *silent* steps of the lock   *)
 (* specification (the atomic exchange, the atomic store), so TLC searches    *)
@@ -50,6 +52,7 @@ Event(e) ==
     [] e.k = "srel"   -> StrayCall(e.t) /\ UNCHANGED res
     [] e.k = "srelret" -> StrayRet(e.t) /\ UNCHANGED res
     [] e.k = "nb"     -> e.n0 = e.n1 /\ UNCHANGED <<state, pc, counter, tmp, done, res>>      \* lock operations never touch the neighbour
+    [] e.k = "fault"  -> FALSE /\ UNCHANGED <<state, pc, counter, tmp, done, res>>      \* a lock operation touched memory behind the lock word
     [] e.k = "reset"  -> /\ state' = 0 /\ pc' = [t \in Tasks |-> "idle"] /\ counter' = 0
                          /\ tmp' = [t \in Tasks |-> 0] /\ done' = 0 /\ res' = [t \in Tasks |-> "none"]
 
